@@ -595,3 +595,44 @@ Example ex_inner_n_rejected :
   splitN Inner (None, [Leaf 10; Leaf 11; Leaf 12; Leaf 13]%Z) [(Some 2, square); (None, [Leaf 1; Leaf 2; Leaf 3; Leaf 4]%Z)]
   = ShapeError.
 Proof. vm_compute. reflexivity. Qed.
+
+(* ------------------------------------------------------------------ the n-ary executable checks decide
+   the n-ary Prop specs *)
+Lemma head_all {A B} (f : A -> B) (eqb : B -> B -> bool) (H : forall x y, eqb x y = true <-> x = y) (l : list A) :
+  match l with [] => true | x :: r => forallb (fun y => eqb (f x) (f y)) r end = true <->
+  (forall a b, In a l -> In b l -> f a = f b).
+Proof.
+  destruct l as [|x r].
+  - split; [intros _ a b []| reflexivity].
+  - rewrite forallb_forall. split.
+    + intros HF.
+      assert (E : forall a, In a (x :: r) -> f a = f x).
+      { intros a [<-|Ha]; [reflexivity|]. symmetry. apply H, HF, Ha. }
+      intros a b Ha Hb. now rewrite (E a Ha), (E b Hb).
+    + intros HA y Hy. apply H. apply HA; [left; reflexivity| right; exact Hy].
+Qed.
+
+Lemma value_list_eqb_eq : forall a b : list value, list_eqb value_eqb a b = true <-> a = b.
+Proof. apply list_eqb_spec, value_eqb_eq. Qed.
+
+Lemma outer_n_okb_spec ops o : outer_n_okb ops o = true <-> outer_n_ok ops o.
+Proof. apply (outcome_eqb_eq (list_eqb value_eqb) value_list_eqb_eq). Qed.
+
+Lemma inner_n_okb_spec ops o : inner_n_okb ops o = true <-> inner_n_ok ops o.
+Proof.
+  unfold inner_n_okb, inner_n_ok. destruct o as [l| |].
+  - rewrite andb_true_iff, (list_eqb_spec (list_eqb value_eqb) value_list_eqb_eq).
+    rewrite (head_all (@List.length value) Nat.eqb Nat.eqb_eq). tauto.
+  - rewrite negb_true_iff.
+    assert (R : forallb (fun p : operand => rectangularb (fst p) (snd p)) ops = true <->
+                Forall (fun p => rectangular (fst p) (snd p)) ops).
+    { rewrite forallb_forall, Forall_forall. split; intros HH p Hp; apply rectangularb_spec, HH, Hp. }
+    pose proof (head_all (fun p : operand => dims (fst p) (snd p)) (list_eqb Nat.eqb) nat_list_eqb_eq ops) as D.
+    fold (same_dims ops) in D.
+    split.
+    + intros E [HR HD]. apply R in HR. apply D in HD.
+      exact (eq_true_false_abs _ (proj2 (andb_true_iff _ _) (conj HR HD)) E).
+    + intros HN. apply not_true_is_false. intros T. apply andb_true_iff in T. destruct T as [TR TD].
+      apply HN. split; [exact (proj1 R TR)| exact (proj1 D TD)].
+  - split; [discriminate|tauto].
+Qed.
